@@ -62,7 +62,11 @@ structure Cause (V : Type) where
 
 /-- What `match()` and the registries read of a handler, relative to one cause. -/
 structure Handler (V : Type) where
-  fn : Nat                                 -- id(handler.fn)
+  fn : Nat                                 -- id(handler.fn): the identity of the registered *object*
+  func : Nat                               -- the identity of the *function*: for a bound method
+                                           -- (id(fn.__self__), id(fn.__func__)) -- `obj.method` is a new
+                                           -- object on every access, so `fn` differs while `func` does not;
+                                           -- for every other callable the same as `fn`
   id : String
   changing : Bool                          -- isinstance(handler, handlers.ChangingHandler)
   selector : Option Bool                   -- none: `selector is None`; some b: `selector.check(resource)`
@@ -419,8 +423,12 @@ structure Obj where
   deletedEvent : Bool     -- raw_event['type'] == 'DELETED'
   ongoing : Bool          -- finalizers.is_deletion_ongoing(body)
   blocked : Bool          -- finalizers.is_deletion_blocked(body, finalizer): own finalizer present
-  noDelays : Bool         -- `not delays` at the end of the cycle (no handler/daemon asked to wait)
   carried : Bool          -- `bool(memory.remaining_patch)`: `patch_initially_empty = not patch` is false
+  lingering : Bool        -- in-memory residue of an earlier cycle: a daemon/timer of this object that is not
+                          -- matched any more (or whose object is being deleted) is still exiting, so
+                          -- `match_daemons` / `stop_daemons` return a delay (daemon life cycles: C09)
+  handlerDelays : Bool    -- `process_changing_cause` (if it runs) returns delays: a handler asked to be retried
+  resumed : List String   -- `memory.resumed_handlers` (/repo 6c4463d): resuming handlers already finished here
 
 inductive Effect where
   | carried                              -- the cycle's patch starts with an earlier cycle's rejected fns
@@ -429,6 +437,7 @@ inductive Effect where
   | addFinalizer                         -- patch.fns += block_deletion
   | removeFinalizer                      -- patch.fns += allow_deletion
   | handle (ids : List String)           -- process_changing_cause: handlers, progress & diff-base annotations
+  | touch                                -- application.apply: sleep for the delay, then patch `touch-dummy`
   deriving DecidableEq, Repr
 
 /-- an effect by which the object is written to in this cycle: the framework's finalizer and
@@ -439,6 +448,7 @@ def Effect.isFrameworkWrite : Effect → Bool
   | .addFinalizer => true
   | .removeFinalizer => true
   | .handle _ => true
+  | .touch => true
   | _ => false
 
 def ids {V} (hs : List (Handler V)) : List String := hs.map (·.id)
@@ -478,6 +488,25 @@ structure ExitAtoms where
   carried : Bool         -- not patch_initially_empty
 def earlyExitCore (a : ExitAtoms) : Bool := a.required && !(a.achievedBefore && !a.carried)
 
+/-- the filter of `process_changing_cause` on `cause_handlers` (/repo 6c4463d):
+    `not (handler.initial and handler.id in memory.resumed_handlers)` -/
+structure ResumedAtoms where
+  initial : Bool
+  inResumed : Bool
+def resumedKeepCore (a : ResumedAtoms) : Bool := !(a.initial && a.inResumed)
+
+/-- `cause_handlers` of `process_changing_cause`: `get_handlers(cause)` minus the finished resuming ones -/
+def causeHandlers {V} [PyVal V] (hs : List (Handler V)) (c : Cause V) (resumed : List String) :
+    List (Handler V) :=
+  (getHandlersChanging hs c []).filter
+    (fun h => resumedKeepCore { initial := h.kind.initial, inResumed := resumed.contains h.id })
+
+/-- `application.apply`: with a delay and no patch that changes the object, sleep and then touch -/
+structure TouchAtoms where
+  delay : Bool           -- `delays` is not empty
+  patched : Bool         -- `bool(patch)` (a patch that changes nothing is C08's subject)
+def touchCore (a : TouchAtoms) : Bool := a.delay && !a.patched
+
 def cycle {V} [PyVal V] (r : Registry V) (cs : Causes V) (o : Obj) (stopped : List String) :
     List Effect :=
   let hasW := hasHandlers r.watching
@@ -500,14 +529,23 @@ def cycle {V} [PyVal V] (r : Registry V) (cs : Causes V) (o : Obj) (stopped : Li
               (if removing then [Effect.removeFinalizer] else [])
   -- a carried patch makes the cycle "inconsistent": exit to PATCHing before handling and release
   let early := earlyExitCore { required := changing₂, achievedBefore := true, carried := o.carried }
-  let handling := if changing₂ && !early then
+  let handled := changing₂ && !early
+  let handling := if handled then
       [Effect.handle (if C05.handlerReasons.contains cs.changing.kind.reason
-                      then ids (getHandlersChanging r.changing cs.changing []) else [])]
+                      then ids (causeHandlers r.changing cs.changing o.resumed) else [])]
     else []
+  -- `delays`: from `match_daemons`/`stop_daemons` (only if a spawning cause exists) and from the handling
+  let delays := (hasS && o.lingering) || (handled && o.handlerDelays)
   -- "Release the object if everything is done, and it is marked for deletion."
   let ra : ReleaseAtoms :=
-    { deleted := o.deletedEvent, ongoing := o.ongoing, blocked := o.blocked, delays := !o.noDelays }
-  let release := if !early && releaseCore ra then [Effect.removeFinalizer] else []
-  (if o.carried then [Effect.carried] else []) ++ watching ++ spawning ++ fin₁ ++ handling ++ release
+    { deleted := o.deletedEvent, ongoing := o.ongoing, blocked := o.blocked, delays := delays }
+  let releasing := !early && releaseCore ra
+  let release := if releasing then [Effect.removeFinalizer] else []
+  -- `application.apply` (not for DELETED events). What `process_changing_cause` leaves in the patch is
+  -- C02's subject, so the touch is modelled for cycles without handling only.
+  let patched := o.carried || adding || removing || releasing
+  let touch := if !o.deletedEvent && !handled && touchCore { delay := delays, patched := patched }
+               then [Effect.touch] else []
+  (if o.carried then [Effect.carried] else []) ++ watching ++ spawning ++ fin₁ ++ handling ++ release ++ touch
 
 end Kopf.C15
